@@ -4,6 +4,7 @@ import (
 	"context"
 	"encoding/json"
 	"fmt"
+	"golang.org/x/text/unicode/norm"
 	"strconv"
 	"strings"
 	"unicode/utf8"
@@ -153,6 +154,7 @@ func (self ValueString) IntoIter() func() (Value, bool) {
 
 func NewValueString(inner string) *Value {
 	zero := 0
-	val := Value(ValueString{Inner: inner, currIterIdx: &zero})
+	// like the VM: every string value holds the NFC normal form (`"e\u0301" == "é"`, len, iteration)
+	val := Value(ValueString{Inner: norm.NFC.String(inner), currIterIdx: &zero})
 	return &val
 }
